@@ -404,8 +404,13 @@ func mustJSON(raw json.RawMessage) map[string]any {
 	return m
 }
 func num(m map[string]any, k string) int {
-	f, _ := m[k].(float64)
-	return int(f)
+	switch v := m[k].(type) {
+	case float64:
+		return int(v)
+	case int:
+		return v
+	}
+	return 0
 }
 func str(m map[string]any, k string) string {
 	s, _ := m[k].(string)
